@@ -21,6 +21,9 @@ type Clause struct {
 	// Off: an auxiliary clause (loop invariant, loop assumption, hint) set aside for this run because it no longer
 	// binds or no longer holds; the proof must then succeed without it (see dropAuxiliary)
 	Off bool
+	// Renamed: the clause only binds after rename recovery (a variable it names is gone and it was re-stated over a
+	// guessed successor)
+	Renamed bool
 }
 
 // Contract is the //@ block of one function.
